@@ -145,6 +145,8 @@ func genProposal(r *Rng, c *GenCfg, num uint8) ProposalSpec {
 	want := r.Range(1, 6)
 	if c.SizeClass == 0 {
 		want = r.Range(1, 2)
+	} else if r.Chance(1, 80) {
+		want = Pick(r, 16, 254, 255) // the transform count is an 8-bit field
 	}
 	for total < want {
 		counts[r.Intn(5)]++
@@ -245,13 +247,22 @@ func genPayload(r *Rng, c *GenCfg, kind string) PayloadSpec {
 		n := Pick(r, 1, 1, 1, 2, 2, 3, 5)
 		if c.SizeClass == 0 {
 			n = 1
+		} else if r.Chance(1, 60) {
+			n = Pick(r, 16, 255, 256, 257) // many proposals
+			small := *c
+			small.SizeClass = 0
+			for i := 0; i < n; i++ {
+				p.Proposals = append(p.Proposals, genProposal(r, &small, uint8(i+1)))
+			}
+			return p
 		}
 		for i := 0; i < n; i++ {
 			pr := genProposal(r, c, uint8(i+1))
 			if i > 0 && r.Chance(1, 4) {
 				// proposals built incrementally from one container: same ENCR transforms plus more
 				prev := p.Proposals[i-1].Encr
-				if len(prev) > 0 {
+				others := len(pr.Prf) + len(pr.Integ) + len(pr.DH) + len(pr.ESN)
+				if len(prev) > 0 && len(prev)+2+others <= 255 { // the transform count is an 8-bit field
 					pr.Encr = append(append([]TransformSpec{}, prev...), genTransforms(r, c, 1, r.Range(1, 2))...)
 					pr.ShareEncr = true
 				}
@@ -300,6 +311,9 @@ func genPayload(r *Rng, c *GenCfg, kind string) PayloadSpec {
 	case "CP":
 		p.A = Pick[uint8](r, 1, 2, 3, 4, r.U8())
 		n := Pick(r, 1, 1, 2, 3, 5)
+		if c.SizeClass != 0 && r.Chance(1, 60) {
+			n = Pick(r, 64, 255, 256, 300)
+		}
 		for i := 0; i < n; i++ {
 			a := CPAttrSpec{Type: Pick[uint16](r, 1, 2, 3, 8, 13, uint16(r.Intn(0x8000))), Value: genData(r, c, 0)}
 			if c.corner(r) {
@@ -364,6 +378,15 @@ func genMsg(r *Rng, c *GenCfg) *MsgSpec {
 		n = 0
 	} else if n == 0 && r.Chance(2, 3) {
 		n = 1
+	}
+	if c.SizeClass != 0 && r.Chance(1, 150) {
+		// a very long chain of tiny payloads (counts around 255/256 and beyond)
+		n = Pick(r, 255, 256, 257, 300, 600)
+		tiny := GenCfg{SizeClass: 0, Kinds: []string{"Nonce", "V", "N", "D"}}
+		for i := 0; i < n; i++ {
+			m.Payloads = append(m.Payloads, genPayload(r, &tiny, Pick(r, tiny.Kinds...)))
+		}
+		n = 0
 	}
 	for i := 0; i < n; i++ {
 		m.Payloads = append(m.Payloads, genPayload(r, c, Pick(r, c.Kinds...)))
